@@ -6,6 +6,7 @@ import BufrModel.Coder.Regs
 import BufrModel.Gen.PyCoder
 import BufrModel.Lemmas.CoderSrc
 import BufrModel.Lemmas.CoderOpSrc
+import BufrModel.Lemmas.CoderBitmapSrc
 set_option linter.unusedSimpArgs false
 namespace Bufr
 open PyGen.coder
@@ -104,25 +105,8 @@ theorem C07_src_add_bitmap_link (φ : D → Elem) (ps : CoderState.Self D V) (s 
                         bitmap_links := Py.dictSetItem ps.bitmap_links (ps.decoded_descriptors.length : Nat) i } ∧
         Rep φ ps' s2.regs ∧ s2.data = s.data
     | .error e, .error e' => excClass e = e'
-    | _, _ => False := by
-  obtain ⟨hwf, nr, hr, href⟩ := h
-  have hit : s.regs.bmIter = ps.next_bitmapped_descriptor.map (pairsOf φ) := by rw [hr]; rfl
-  cases hn : ps.next_bitmapped_descriptor with
-  | none =>
-    simp [CoderState.add_bitmap_link, nextBitmapped, hn, hit, Py.callNext, excClass, bind, Except.bind]
-  | some l =>
-    cases l with
-    | nil =>
-      simp [CoderState.add_bitmap_link, nextBitmapped, hn, hit, Py.callNext, excClass, bind, Except.bind, pairsOf]
-    | cons p rest =>
-      obtain ⟨i, d⟩ := p
-      simp only [CoderState.add_bitmap_link, nextBitmapped, hn, hit, Py.callNext, bind, Except.bind, pure, Except.pure,
-        pairsOf, Option.map, List.map]
-      refine ⟨i, d, rest, rfl, rfl, rfl, rfl, ⟨?_, nr, ?_, href⟩, rfl⟩
-      · exact hwf
-      · simp only [St.setRegs]
-        rw [hr]
-        simp [regsOf, pairsOf]
+    | _, _ => False :=
+  add_bitmap_link_corr φ ps s h
 
 /-- the hypothesis is satisfiable, with a bitmapped descriptor waiting -/
 example : ∃ (ps : CoderState.Self Nat Nat) (s : St), Rep (fun _ => default) ps s.regs ∧
@@ -131,5 +115,38 @@ example : ∃ (ps : CoderState.Self Nat Nat) (s : St), Rep (fun _ => default) ps
       true, 7, some [], 3, some []⟩ with next_bitmapped_descriptor := some [(0, 7)] },
    { regs := { bmIter := some [(0, default)] } }, ⟨by simp [WF, freshOver, bsrOf], [], by simp [regsOf, freshOver, pairsOf, qaOfTag, bitmapDefOfTag,
       QA_INFO_NA, QA_INFO_WAITING, QA_INFO_PROCESSING, BITMAP_NA, BITMAP_INDICATOR, BITMAP_WAITING_FOR_BIT, BITMAP_BIT_COUNTING], refRel_nil⟩, rfl⟩
+
+/-! ### `Coder.process_bitmap_definition`: the bitmap-definition state machine -/
+
+/-- **The generated `process_bitmap_definition` is the model's `bitmapDefinition`**, for every descriptor id, every
+    Python state / bit operator / model state that correspond (`AbsSt`), and a `define_bitmap` callback that corresponds
+    to collecting the last `n_031031` values and building the bitmapped descriptors (`DefineCorr`:
+    `P.lastValues n s >>= buildBitmapped s`): after the indicator operator, 237000 ends the definition, anything else
+    (236000 included) starts waiting for the first 031031 with the counter at 0; the first 031031 starts counting; every
+    further 031031 counts; the first other descriptor defines the bitmap and ends the definition.  Both return in
+    corresponding states or fail with the same error class (only `define_bitmap` can fail). -/
+theorem C07_src_process_bitmap_definition {B : Type} (φ : D → Elem) (A : PyData D V → B → StData → Prop)
+    (cb : Coder.process_bitmap_definition.Callbacks D V B) (P : Prims) (hdef : DefineCorr φ A cb P)
+    (d : AnyDescriptor.Self) (id : Nat) (hid : d.id = id)
+    (ps : CoderState.Self D V) (b : B) (s : St) (h : AbsSt φ A ps b s) :
+    Corr φ A (withBit b (Coder.process_bitmap_definition cb ps b d)) (bitmapDefinition P id s) :=
+  bitmapdef_core φ A cb P hdef d id hid ps b s h
+
+/-- the hypothesis is satisfiable: a `define_bitmap` that always fails against primitives that always fail -/
+example : DefineCorr (D := Nat) (V := Nat) (B := Nat) (fun _ => default) (fun _ _ _ => True)
+    ⟨fun _ _ => .error .typeError⟩ failPrims :=
+  fun _ _ _ _ _ => rfl
+
+/-- `most_recent_bitmap_is_for_reuse` (no counterpart in the model's registers): after the indicator operator, 236000
+    sets it, any other descriptor except 237000 clears it. -/
+theorem C07_src_bitmap_definition_reuse_flag {B : Type} (cb : Coder.process_bitmap_definition.Callbacks D V B)
+    (ps : CoderState.Self D V) (b : B) (d : AnyDescriptor.Self) (hs : ps.bitmap_definition_state = BITMAP_INDICATOR)
+    (h7 : d.id ≠ 237000) :
+    Coder.process_bitmap_definition cb ps b d =
+      .ok { ps with most_recent_bitmap_is_for_reuse := decide (d.id = 236000),
+                    bitmap_definition_state := BITMAP_WAITING_FOR_BIT, n_031031 := 0 } := by
+  by_cases h6 : d.id = 236000
+  · simp [Coder.process_bitmap_definition, hs, h6, exc_pure, exc_bind_ok]
+  · simp [Coder.process_bitmap_definition, hs, h6, h7, exc_pure, exc_bind_ok]
 
 end Bufr
